@@ -178,8 +178,10 @@ def r4_objective(ctx):
     cp = Canon(p.node)
     pl = cp.lines(True, True)
     START = "{?n: $1.get_tensor_value(?n)[0] for ?n in $1.dag.individual_variable_names}"
-    ok = unify(pl, [f"?res = minimize($0.obj_with_jac if $k1 else $0.obj_no_jac, jac=$k1, x0=$k0.scaling({START}), args=($1, $k0), **$0.scipy_minimize_params)",
-                    "?ip = $k0.unscaling(?res.x)", "?loss = $0.obj_no_jac(?res.x, $1, $k0)", "return (?ip, ?loss)"]) is not None
+    MIN = f"minimize($0.obj_with_jac if $k1 else $0.obj_no_jac, jac=$k1, x0=$k0.scaling({START}), args=($1, $k0), **$0.scipy_minimize_params)"
+    ok = unify(pl, [f"?res = {MIN}", f"?ip = $k0.unscaling({MIN}.x)", f"?loss = $0.obj_no_jac({MIN}.x, $1, $k0)", "return (?ip, ?loss)"]) is not None \
+        or unify(pl, [f"?res = {MIN}", "?ip = $k0.unscaling(?res.x)", "?loss = $0.obj_no_jac(?res.x, $1, $k0)", "return (?ip, ?loss)"]) is not None \
+        or unify(pl, [f"return ($k0.unscaling({MIN}.x), $0.obj_no_jac({MIN}.x, $1, $k0))"]) is not None
     ps = " ".join(pl)
     if ok:
         ctx.ok("C17.R4", p, p.node, "start = scaled current individual values of this state; result = unscaled optimiser output for the same state and scaling", construct="start and returned point")
